@@ -208,7 +208,9 @@ class BlockParser:
 		index = begin
 		other_closes: list[str] = []
 		while index < len(text):
-			if text[index] in other_tokens:
+			# 引用符の内側は文字列であり、対応する引用符以外の括弧・引用符は入れ子として数えない
+			in_quote = len(other_closes) > 0 and other_closes[-1] in '"\''
+			if text[index] in other_tokens and (not in_quote or text[index] == other_closes[-1]):
 				other_index = other_tokens.find(text[index])
 				if len(other_closes) > 0 and other_closes[-1] == other_tokens[other_index]:
 					other_closes.pop()
@@ -323,6 +325,11 @@ class BlockParser:
 		begin = 0
 		stack = 0
 		while index < len(text):
+			if text[index] in '"\'':
+				# 文字列内の括弧はブロックとして数えない
+				index = cls._skip_other_block(text, '""\'\'', index)
+				continue
+
 			if text[index] == brackets[0] and stack == 0:
 				begin = index + 1
 				stack += 1
